@@ -191,14 +191,50 @@ def _get_code(args, v):
     return code
 
 
+def lookalike(code, shift=1):
+    """a code object that compares equal to `code` under code.__eq__ on 3.7-3.10 (which ignores the
+    line table, the file name and the stack size) but whose lines are all shifted: decoding it after
+    `code` must describe IT, not a remembered decode of the other one"""
+    from ops_const import code_replace
+    consts = tuple(lookalike(k, shift) if isinstance(k, CodeType) else k for k in code.co_consts)
+    kw = {"co_consts": consts, "co_filename": code.co_filename + ".look"}
+    if refs.AT310:
+        t = code.co_linetable
+        # first entry with a line: bump its delta
+        for i in range(0, len(t), 2):
+            d = t[i + 1]
+            d = d - 256 if d >= 128 else d
+            if d != -128 and -120 < d < 120:
+                kw["co_linetable"] = t[:i + 1] + bytes([(d + shift) & 255]) + t[i + 2:]
+                break
+    else:
+        kw["co_lnotab"] = bytes([0, shift]) + code.co_lnotab
+    return code_replace(code, **kw)
+
+
 @op("c02")
 def op_c02(args):
     v = Verdict()
     code = _get_code(args, v)
     _self_check(code)
     _program_features(code, v)
+    nontrivial = _c02_compare(code, v, "")
+    if not v.violations:
+        try:
+            look = lookalike(code)
+        except (ValueError, TypeError):
+            look = None
+        if look is not None:
+            v.features["lookalike_decodes"] += 1
+            _c02_compare(look, v, "look-alike decoded after the original: ")
+    v.info["nontrivial"] = nontrivial
+    return v.result()
+
+
+def _c02_compare(code, v0, prefix):
     L = lib()
     nontrivial = False
+    v = v0 if not prefix else Verdict()
     for path, c, cd in _decode_each(code, v):
         us = refs.units(c.co_code)
         flat, bstarts = _flatten(cd)
@@ -269,8 +305,10 @@ def op_c02(args):
                     v.violate("operand", "int", "%s #%d %s %r vs %r" % (path, i, name, a, arg))
         if njump and len(lines) >= 2:
             nontrivial = True
-    v.info["nontrivial"] = nontrivial
-    return v.result()
+    if prefix:
+        for viol in v.violations[:3]:
+            v0.violate(viol["kind"] + "_after_lookalike", viol["sub"], prefix + viol["detail"])
+    return nontrivial
 
 
 # ------------------------------------------------------------------ C13
